@@ -6,6 +6,9 @@ import numpy as np
 from .. import core, fixedq
 
 
+KERAS3_PASS = True   # thorough tier repeats the tie under the pinned Keras 3
+
+
 def run(run: core.Run, tier: str):
   import tensorflow as tf
   recs = fixedq.collect(run, tier, "C02")
@@ -28,8 +31,10 @@ def run(run: core.Run, tier: str):
     leaky = r.kind == "qrelu" and r.cfg.get("slope_log") is not None
     for i, (x, y) in enumerate(zip(r.xs, r.ys)):
       run.case((r.label, x), nontrivial=True)
-      if lat is None or leaky:
+      if lat is None:
         continue
+      if leaky and 2 ** (r.cfg["bits"] - 1) < 2 ** r.cfg["slope_log"]:
+        continue   # slope below the lsb: outside the lattice (C01 finding), nearest-code is not defined
       if r.kind in ("qtanh", "qsigmoid") and r.cfg.get("real"):
         s = r.ps[i]          # oracle input: TF's tanh / sigmoid value
         tol = F(0)
